@@ -195,6 +195,8 @@ def _clean(meta):
 def o_c01(meta, ans, ctx):
     if meta.get('kind') == 'bigfile':
         return o_bigfile(meta, ans)
+    if meta.get('kind') == 'rchunk':
+        return None if ans == 'rchunk ok ' + meta['val'] else 'pipe: load_full of the stored bytes through a named pipe gives %s' % ans[:60]
     if meta.get('kind') == 'zstvec':
         return None if ans == 'zstvec ok' else 'zst-length: a sequence of %d zero-sized items does not round-trip (%s)' % (meta['n'], ans[:80])
     if meta.get('kind') != 'case' or meta['mut'] != '-':
@@ -299,7 +301,8 @@ def o_c10(meta, ans, ctx):
     if a is None or a['S']['status'] != 'ok': return 'ser: serialization did not succeed'
     data = bytearray(bytes.fromhex(a['S']['hex']))
     orig = bytes(data)
-    mut = meta['mut'].split(':')
+    muts = [m.split(':') for m in meta['mut'].split('+')]
+    mut = muts[0]
     misplaced = meta.get('r', 0) % 64 != 0
     def eps_refused_for_placement(x):
         # on a misplaced buffer a *valid* header may be followed by an alignment error of the ε-copy reader (which blocks are
@@ -307,11 +310,12 @@ def o_c10(meta, ans, ctx):
         return misplaced and x['status'] == 'err' and x.get('kind') == 'alignment'
     if mut[0] == '-':
         return None if a['F']['status'] == 'ok' and (a['E']['status'] == 'ok' or eps_refused_for_placement(a['E'])) else 'baseline: unperturbed stream not accepted'
-    if mut[0] == 'flip':
-        k = int(mut[1]); data[k // 8] ^= 1 << (k % 8)
-    elif mut[0] == 'setw':
-        o, w, v = int(mut[1]), int(mut[2]), int(mut[3])
-        data[o:o + w] = v.to_bytes(w, 'little')
+    for mut in muts:
+        if mut[0] == 'flip':
+            k = int(mut[1]); data[k // 8] ^= 1 << (k % 8)
+        elif mut[0] == 'setw':
+            o, w, v = int(mut[1]), int(mut[2]), int(mut[3])
+            data[o:o + w] = v.to_bytes(w, 'little')
     exp = expected_header_error(data[:29])
     if exp is None:
         th0, ah0 = orig[13:21], orig[21:29]
@@ -609,6 +613,8 @@ def o_c04(meta, ans, ctx):
 def o_c08(meta, ans, ctx):
     if meta.get('kind') == 'bigfile':
         return o_bigfile(meta, ans)
+    if meta.get('kind') == 'rchunk':
+        return None if ans == 'rchunk ok ' + meta['val'] else 'pipe: load_full of the stored bytes through a named pipe gives %s' % ans[:60]
     if meta.get('kind') != 'load':
         return None
     p = ans.split(' ')
@@ -731,6 +737,11 @@ def o_c13(meta, ans, ctx):
         if len(p) < 4 or p[0] != 'wfail': return 'shape: ' + ans[:60]
         if meta.get('devfull'):
             return None if p[1] == 'err' else 'devfull: serializing to /dev/full gave %s' % p[1]
+        if meta.get('at') is not None:
+            if p[1] == 'panic': return 'panic: serialization panicked on a failing writer'
+            if meta['ff'] and p[1] != 'err': return 'flush: flush failed (structure written at offset %d) but the result is %s' % (meta['at'], p[1])
+            if not meta['ff'] and not p[1].startswith('ok:'): return 'split: a writer that takes everything got result %s' % p[1]
+            return None if 'intact=true' in ans else 'intact: the source value changed'
         why = _wfail_one(p[1], p[2], meta['k'], meta['total'], meta['ff'])
         if why: return why
         if 'intact=true' not in ans: return 'intact: the source value changed'
